@@ -226,7 +226,10 @@ def run_case(case):
         try:
             ag = generate(sag, g)
         except StepTimeout:
-            cnt["watchdog"] += 1
+            if any(e["k"] == "draw_exc" and "StepTimeout" in e.get("exc", "") for e in trace.events):
+                cnt["skipped_draw_runaway"] += 1  # the time was spent inside a Schulz-Zimm draw (C11's listed runaway search), not in atom-graph generation
+            else:
+                cnt["watchdog"] += 1
             return None
         except steps.StepBudgetExceeded:
             viol.append({"cls": "c18.does-not-terminate", "msg": f"generate() used more than {LINE_BUDGET} library lines", "text": text, "label": label})
